@@ -27,8 +27,8 @@ RULE = ('Evaluation = one interleaving / one thread schedule of 2-4 chunks, each
         'pairs observed overlapping. Non-trivial = the chunks differ in data or parameters; distinct = '
         'interleaving index resp. schedule hash.')
 ASSUMPTIONS = ['no pre-emption inside C extensions (numpy / scikit-learn calls are atomic steps of a schedule)',
-               'isolated references are computed in the same process before the interleavings (cross-process equality is C09)']
-REQUIRED = ['pair_interleavings_252', 'pair_same_data_different_prms', 'pair_shared_list_objects', 'global_changed_between_stages', 'triple_interleavings', 'threads_pct', 'threads_random_walk', 'threads_call_level', 'threads_call_level',
+               'the reference of a chunk is its digest when processed alone in a fresh process with the same global parameters installed']
+REQUIRED = ['pair_interleavings_252', 'pair_same_data_different_prms', 'pair_shared_list_objects', 'global_changed_between_stages', 'references_from_fresh_processes', 'triple_interleavings', 'threads_pct', 'threads_random_walk', 'threads_call_level', 'threads_call_level',
             'two_threads_in_same_stage', 'two_threads_in_ncomp_from_gmm', 'poisoned_global', 'distinct_schedules_100']
 SIZES = {'quick': dict(pairs=4, triples=100, sched=320), 'thorough': dict(pairs=40, triples=1680 * 5, sched=6000)}
 EXHAUSTIVE = {'quick': 'all C(10,5)=252 stage interleavings of two chunks, for each of the pairs (interleaving part only)',
@@ -106,24 +106,51 @@ def make_cases(seed, key, n, same_data=False):
     return cases
 
 
-def install_global(key, cases):
-    """The global set differs from every per-call set.  Even keys: poison + per-call dicts naming every leaf."""
+def apply_global(gtag):
     import ampycloud
     from ampycloud import dynamic
     from .c12 import poison
     ampycloud.reset_prms()
-    if key % 2 == 0:
-        for c in cases:
-            c['call'] = obs.effective({'call': c['call'], 'glob': {}})
-            if scenes.empties_chunk(c['scene'], c['call']):
-                c['call']['MSA'] = None
+    if gtag == 'poisoned_global':
         poison(dynamic.AMPYCLOUD_PRMS)
-        return 'poisoned_global'
+        return
     dynamic.AMPYCLOUD_PRMS['MIN_SEP_VALS'] = [777.0, 1234.0]
     dynamic.AMPYCLOUD_PRMS['LOWESS']['frac'] = 0.55
     dynamic.AMPYCLOUD_PRMS['MAX_HOLES_OKTA8'] = 2
     dynamic.AMPYCLOUD_PRMS['SLICING_PRMS']['distance_threshold'] = 0.15
     dynamic.AMPYCLOUD_PRMS['LAYERING_PRMS']['gmm_kwargs']['delta_mul_gain'] = 0.7
+    # a non-empty exclusion list that the per-call dicts do not override: instruments some chunks hold, others not
+    dynamic.AMPYCLOUD_PRMS['EXCLUDE_FOR_BASE_HEIGHT_CALC'] = ['b', 'q1', 'c']
+
+
+def fresh_references(cases, gtag):
+    """Digest of every case processed ALONE IN A FRESH PROCESS (same global parameters installed)."""
+    import json
+    import subprocess
+    from .. import env as _env
+    out = []
+    for c in cases:
+        r = subprocess.run([sys.executable, '-m', 'vf.props.c13', '--ref'], input=json.dumps({'case': c, 'gtag': gtag}),
+                           capture_output=True, text=True, env=_env.child_env(), cwd=_env.VERIF_DIR, timeout=600)
+        line = [x for x in r.stdout.splitlines() if x.startswith('DIGEST ')]
+        if r.returncode != 0 or not line:
+            raise RuntimeError('reference process failed: ' + (r.stderr or r.stdout)[-400:])
+        out.append(line[-1].split(' ', 1)[1])
+    return out
+
+
+def install_global(key, cases):
+    """The global set differs from every per-call set.  Even keys: poison + per-call dicts naming every leaf."""
+    import ampycloud
+    from ampycloud import dynamic
+    if key % 2 == 0:
+        for c in cases:
+            c['call'] = obs.effective({'call': c['call'], 'glob': {}})
+            if scenes.empties_chunk(c['scene'], c['call']):
+                c['call']['MSA'] = None
+        apply_global('poisoned_global')
+        return 'poisoned_global'
+    apply_global('different_global')
     for c in cases:
         eff = copy.deepcopy(dynamic.AMPYCLOUD_PRMS)
         if scenes.empties_chunk(c['scene'], dict(eff, **{k: v for k, v in c['call'].items() if not isinstance(v, dict)})):
@@ -198,7 +225,14 @@ def check_interleavings(desc):
             elif shared:
                 for c in cases:
                     c['call'].update(copy.deepcopy(fresh_common()))
-            ref = [isolated(c) for c in cases]
+            ref_same_process = [isolated(c) for c in cases]
+            apply_global(gtag)
+            ref = fresh_references(cases, gtag)
+            tags.add('references_from_fresh_processes')
+            for k_, (a_, b_) in enumerate(zip(ref_same_process, ref)):
+                if a_ != b_:
+                    oracles.V(viol, 'C13', 'processing a chunk alone gives another result after other chunks were processed in the same process',
+                              chunk=k_, same_data=same, global_mode=gtag)
             if desc['fam'] == 'pair':
                 seqs = [STAGES, STAGES]
                 allp = list(itertools.combinations(range(10), 5))[desc['lo']:desc['lo'] + desc['n']]
@@ -465,12 +499,9 @@ def check_threads(desc):
     tags.add(gtag)
     sample = None
     try:
-        ref = []
-        for c in cases:
-            ch = ampycloud.run(scenes.frame(c['scene']), prms=copy.deepcopy(c['call']))
-            o = obs.observe(ch, msgs=False)
-            o['msgs'] = [ch.metar_msg(w) for w in obs.WHICH]
-            ref.append(obs.ohash(o))
+        ref = fresh_references(cases, gtag)
+        tags.add('references_from_fresh_processes')
+        apply_global(gtag)
         dfs = [scenes.frame(c['scene']) for c in cases]
         monitoring_on()
         for j in range(desc['n']):
@@ -596,3 +627,13 @@ def finalize(agg, tier, seed):
     if len(hs) >= 100:
         agg['tags']['distinct_schedules_100'] = len(hs)
     return []
+
+
+if __name__ == '__main__' and '--ref' in sys.argv:
+    import json
+    from .. import env as _env
+    _env.setup()
+    warnings.simplefilter('ignore')
+    _job = json.loads(sys.stdin.read())
+    apply_global(_job['gtag'])
+    print('DIGEST ' + isolated(_job['case']))
